@@ -258,8 +258,12 @@ impl CBORTaggedEncodable for KnownValue {
 /// Creates a KnownValue from untagged CBOR.
 impl CBORTaggedDecodable for KnownValue {
     fn from_untagged_cbor(cbor: CBOR) -> Result<Self> {
-        let value = u64::try_from(cbor)?;
-        Ok(Self::new(value))
+        // Only an unsigned integer is a known value. (`u64::try_from` alone
+        // would turn a negative integer into a large positive one.)
+        match cbor.as_case() {
+            CBORCase::Unsigned(value) => Ok(Self::new(*value)),
+            _ => Err(Error::msg("known value is not an unsigned integer")),
+        }
     }
 }
 
